@@ -2,6 +2,7 @@ package variants
 
 import (
 	"math"
+	"strconv"
 
 	"github.com/pip-services3-gox/pip-services3-commons-gox/errors"
 )
@@ -995,9 +996,15 @@ func (c *AbstractVariantOperations) GetElement(
 	index := int(value2.AsInteger())
 
 	if value1.Type() == Array {
+		if index < 0 || index >= value1.Length() {
+			return nil, errors.NewBadRequestError("", "OUT_OF_RANGE", "Index "+strconv.Itoa(index)+" is out of range in operation '[]'")
+		}
 		return value1.GetByIndex(index), nil
 	} else if value1.Type() == String {
 		runes := []rune(value1.AsString())
+		if index < 0 || index >= len(runes) {
+			return nil, errors.NewBadRequestError("", "OUT_OF_RANGE", "Index "+strconv.Itoa(index)+" is out of range in operation '[]'")
+		}
 		result.SetAsString(string(runes[value2.AsInteger()]))
 		return result, nil
 	}
